@@ -708,6 +708,32 @@ fn part_b_many(ctx: &Ctx, rep: &mut Report) {
             run_case("B11-value-size-totals", i, n, &m, ctx, rep);
         });
     }
+    // B12: every pair of registered option numbers (plus a few unregistered ones) in one message
+    {
+        let mut nums: Vec<u32> = refmodel::registries::OPTIONS.iter().map(|o| o.0 as u32).collect();
+        nums.extend([0u32, 2, 13, 269, 2049, 65535]);
+        nums.sort();
+        nums.dedup();
+        let k = nums.len() as u64;
+        let radices = [k, k, 3, 2];
+        let n = product(&radices);
+        ctx.family(rep, "B12-registered-number-pairs", "every ordered pair (a <= b) of the registered option numbers and {0,2,13,269,2049,65535} in one message x value length {0,1,13} x {one value each, the first number twice}", n, true, |i, rep| {
+            let d = decode(i, &radices);
+            let (a, b) = (nums[d[0] as usize], nums[d[1] as usize]);
+            if a > b {
+                rep.count("skipped-unordered-pair");
+                return;
+            }
+            let len = [0usize, 1, 13][d[2] as usize];
+            let mut options = vec![(a, pattern(len, 1))];
+            if d[3] == 1 {
+                options.push((a, pattern(len + 1, 2)));
+            }
+            options.push((b, pattern(len, 3)));
+            let m = RefMsg { version: 1, mtype: 0, token: vec![0x11, 0x22], code: 0x01, mid: (a as u16) ^ (b as u16), options, payload: vec![0xFF] };
+            run_case("B12-registered-number-pairs", i, n, &m, ctx, rep);
+        });
+    }
     // B10: byte values - every byte value as the content of option values, token and payload
     {
         let radices = [256u64, 4, 3];
